@@ -156,3 +156,29 @@ prop(
     ],
     technique="contract-based deductive verification with monitor invariants (govc over go/ssa + SMT)",
 )
+
+prop(
+    "C06",
+    level="proof",
+    design_ref="DESIGN.md section 3, C06",
+    groups=[(["./plugin/input/file"], r"^\(\*worker\)\.work$")],
+    claim=(
+        "The real (*worker).work (170 lines, five loops) verified in place, for all file contents, all read-buffer sizes >= 1, all max_event_size / cut_off settings, every split of the content into reads of any size "
+        "(Read may return any 0 <= n <= len(buf)), every resume offset and any number of rounds (job invariant assumed at hand-out, proved at hand-back): "
+        "every In() call receives exactly the next complete line content[ls:P) of the file - ending in its newline, with no earlier newline - tagged with the offset P just after that newline, "
+        "and ls advances from newline to newline (so lines are handed over in order, none missed, none twice); an unterminated tail is kept in job.tail with curOffset equal to the descriptor position; "
+        "a line is skipped only because the job's skip flag was set or because it is longer than max_event_size with cut-off disabled; with cut-off enabled an over-long line is handed over with its first max_event_size bytes intact and longer than the limit (so the pipeline cuts it), "
+        "and neighbours and later offsets are unaffected. Index/slice safety of the whole function is part of the proof."
+    ),
+    undecided=[
+        "lz4-compressed files (the branch redefines what an offset is) are outside the contract's scope (stated in the channel invariant)",
+        "concurrent truncation / seek on a job while a worker owns it",
+        "Pipeline.checkInputBytes' part of the size rule is proved under C20",
+    ],
+    assumptions=[
+        "os.File.Read contract (callee clause Read): 0 <= n <= len(p) bytes of the file at the descriptor position, n == 0 when an error (incl. EOF) is returned; file content is append-only (no truncation)",
+        "channel invariant of jobsChan = job invariant (assumed at receive, proved as precondition of continueJob / processEOF)",
+        "controller.In writes only data[0:len(data)]; metadata rendering, counters and logging have no effect on the modelled state",
+        "I/O errors end the process (allow-exit)",
+    ],
+)
